@@ -105,6 +105,9 @@ pub fn family() -> Vec<(Vec<String>, Vec<(String, String)>, Vec<RV>)> {
         ("p".to_string(), "(p{% cycle 'x', 'y' %}{% increment n %}{% assign leaked = 'from-p' %}{% ifchanged %}{{ k }}{% endifchanged %}{% if stop == 2 %}{% break %}{% endif %})".to_string()),
         ("q".to_string(), "(q{{ k }}{% cycle 1, 2, 3 %}{% decrement m %}{% if fail %}{{ nope }}{% endif %})".to_string()),
         ("bad".to_string(), BROKEN_SRC.to_string()),
+        ("x".to_string(), "[plain {{ k }}]".to_string()),
+        ("x.liquid".to_string(), "[ext {{ k }}]".to_string()),
+        ("card.liquid".to_string(), "[card {{ k }}]".to_string()),
     ];
     let data = vec![
         obj(vec![("arr", RV::Arr(vec![RV::Int(1), RV::Int(2), RV::Int(3)])), ("stop", RV::Int(2)), ("n", RV::Int(3)), ("name", st("Tobi")), ("fail", RV::Bool(false)), ("which", st("p"))]),
@@ -121,6 +124,11 @@ pub fn family() -> Vec<(Vec<String>, Vec<(String, String)>, Vec<RV>)> {
             "{% assign a = name %}{% for i in arr %}{% include 'p' k: i %}{% endfor %}{{ a }}{{ leaked }}{% increment n %}",
             "{% for i in arr %}{% render 'q', k: i, fail: fail %}{% endfor %}{% decrement m %}",
             "{% include which %}{% render which, k: 1 %}|{% include 'bad' %}",
+        ],
+        vec![
+            "{% render 'x', k: name %}{% include 'x.liquid' k: 1 %}{% render 'card', k: n %}",
+            "{% include 'x.liquid' k: 2 %}{% include 'x' k: name %}{% render 'x.liquid', k: 3 %}",
+            "{% include 'card' k: 1 %}",
         ],
         vec![
             "{% for i in arr %}{% ifchanged %}{{ i }}{% endifchanged %}{% endfor %}",
@@ -178,6 +186,7 @@ pub fn data_pool() -> Vec<RV> {
         obj(vec![("x", RV::Arr(vec![st("a"), st("a"), st("b")])), ("y", RV::Int(4)), ("arr", RV::Arr(vec![RV::Int(2), RV::Int(2)]))]),
         obj(vec![("y", RV::Bool(false)), ("z", st("zz")), ("arr", RV::Arr(vec![]))]),
         obj(vec![("x", RV::Int(3)), ("y", RV::Int(1)), ("z", RV::Int(3)), ("arr", RV::Arr(vec![RV::Int(3), RV::Int(1), RV::Int(3), RV::Int(3)]))]),
+        obj(vec![("x", st(&format!("x{}", "é".repeat(40)))), ("y", st(&format!("abc{}", "😀".repeat(12)))), ("z", RV::Arr(vec![st(&"ß".repeat(33))])), ("arr", RV::Arr(vec![st(&format!("x{}", "é".repeat(40)))]))]),
     ]
 }
 
